@@ -286,7 +286,7 @@ void runSer(const Op& op, Transcript& t) {
       // a document obtained by deserialization rather than through the API
       RefMsgPackEncoder e;
       std::string bytes = e.encode(v);
-      auto err = deserializeMsgPack(doc, bytes.data(), bytes.size(), DeserializationOption::NestingLimit(200));
+      auto err = deserializeMsgPack(doc, bytes.data(), bytes.size(), DeserializationOption::NestingLimit(255));
       if (err == DeserializationError::NoMemory) {
         count("sink.skipped_document_too_large_for_build");
         return;  // this build's slot or length limit cannot hold the document
@@ -558,6 +558,7 @@ Plan generate(const std::string& mode, uint64_t seed, uint64_t run) {
   unsigned sel = unsigned(r.below(100));
   bool big = false;
   bool bigThroughApi = false;
+  bool deepChain = false;
   if (wantBig) {
     // count and length headers on both sides of 65535/65536
     big = true;
@@ -605,6 +606,28 @@ Plan generate(const std::string& mode, uint64_t seed, uint64_t run) {
       v = Val::arr();
       v.a.push_back(Val::str(str));
     }
+  } else if (r.chance(1, 12)) {
+    // depth instead of width: a chain of 100-254 nested arrays / objects (the pretty serializer indents by level)
+    size_t depth = size_t(r.range(100, 254));
+    if (r.chance(1, 3)) {
+      static const size_t edges[] = {126, 127, 128, 129, 254};
+      depth = edges[r.below(5)];
+    }
+    v = r.chance(1, 2) ? Val::str("leaf") : Val::integer(7);
+    for (size_t j = 0; j < depth; j++) {
+      Val w;
+      if (r.chance(1, 2)) {
+        w = Val::arr();
+        if (r.chance(1, 4))
+          w.a.push_back(Val::boolean(true));
+        w.a.push_back(v);
+      } else {
+        w = Val::obj();
+        w.o.emplace_back(r.chance(1, 2) ? "k" : "", v);
+      }
+      v = w;
+    }
+    deepChain = true;
   } else if (sel < 55) {
     v = genValue(r, g);
   } else if (sel < 70) {
@@ -655,7 +678,7 @@ Plan generate(const std::string& mode, uint64_t seed, uint64_t run) {
   }
   Op op = mkop("ser");
   static const char* fm[] = {"json", "pretty"};
-  op.set("fmt", mp ? "mp" : fm[r.below(2)]).set("v", toText(v)).set("caps", big ? "sample" : "all");
+  op.set("fmt", mp ? "mp" : fm[r.below(2)]).set("v", toText(v)).set("caps", big || deepChain ? "sample" : "all");
   if (r.chance(1, 3))
     op.setu("os", 1 + r.below(255));  // formatting state left on the std::ostream destination
   if (big && !bigThroughApi)
